@@ -535,11 +535,14 @@ pub fn c10(c: &Collector, g: &mut Guard) {
                     if let (Some(a), Some(b)) = (run(t.pre_screen), run(&disp)) {
                         if a != b {
                             let diffs = compare(&a, &b, &Default::default(), &ALL_COMPS);
+                            let mut script2 = t.script.to_vec();
+                            script2.push(o1.clone());
+                            let t2 = Trans { columns: t.columns, lines: t.lines, script: &script2, pre: t.pre, pre_screen: t.pre_screen, op: o2, outcome: t.outcome };
                             viol(
                                 c,
                                 "C10",
                                 "E2.pair2.large",
-                                t,
+                                &t2,
                                 "impure:later-ops-differ",
                                 format!(
                                     "{} then {} end in a different state when display() was called first: {}",
